@@ -36,6 +36,8 @@ type Trace struct {
 	LogPath string
 	Exit    int
 	Stderr  string
+	// OnEvent, when set, sees every applied event (also the ones that change nothing, e.g. fsync)
+	OnEvent func(a fsmodel.Applied, ev fsmodel.Event, st *OpState)
 }
 
 func runnerPath() string {
@@ -214,6 +216,9 @@ func (t *Trace) Walk(preload func(fs *fsmodel.FS) error, selfCheckDir string, on
 					}
 				}
 			}
+		}
+		if t.OnEvent != nil {
+			t.OnEvent(a, ev, st)
 		}
 		if a.Changed || a.Op == "marker" {
 			if err := emit(i+1, a, ev); err != nil {
